@@ -351,9 +351,9 @@ func (a *Nary) Eval(c Context) Value {
 	case tok.Mul: // includes Div
 		return muldiv(exprs, c)
 	case tok.BitOr:
-		return nary(exprs, c, OpBitOr, allones)
+		return nary(exprs, c, OpBitOr, nil)
 	case tok.BitAnd:
-		return nary(exprs, c, OpBitAnd, Zero)
+		return nary(exprs, c, OpBitAnd, nil)
 	case tok.BitXor:
 		return nary(exprs, c, OpBitXor, nil)
 	case tok.Or:
@@ -366,6 +366,9 @@ func (a *Nary) Eval(c Context) Value {
 	panic(assert.ShouldNotReachHere())
 }
 
+// nary evaluates a list of expressions.
+// zero is a short circuit value, only for and/or.
+// The other operators must evaluate (and check) all their operands.
 func nary(exprs []Expr, c Context,
 	op func(Value, Value) Value, zero Value) Value {
 	result := exprs[0].Eval(c)
